@@ -292,12 +292,18 @@ struct decl {
 	} u;
 };
 
+/* scopes of identifiers with variably modified type, nested; a jump must not enter one (C11 6.8.6.1p1, 6.8.4.2p2) */
+struct vmscope {
+	struct vmscope *parent;
+};
+
 struct scope {
 	struct map tags;
 	struct map decls;
 	struct block *breaklabel;
 	struct block *continuelabel;
 	struct switchcases *switchcases;
+	struct vmscope *vm;
 	struct scope *parent;
 };
 
@@ -539,15 +545,24 @@ void funcbody(struct func *, struct scope *);
 
 /* backend */
 
+struct gotouse {
+	struct vmscope *vm;
+	struct gotouse *next;
+};
+
 struct gotolabel {
 	struct block *label;
 	bool defined;
+	/* innermost variably modified scope at the label, and at the gotos seen before it */
+	struct vmscope *vm;
+	struct gotouse *uses;
 };
 
 struct switchcases {
 	void *root;
 	struct type *type;
 	struct block *defaultlabel;
+	struct vmscope *vm;
 };
 
 void switchcase(struct switchcases *, unsigned long long, struct block *);
